@@ -21,7 +21,7 @@ C++ (`nunavut/support/serialization.hpp`; a span is `<data> <offset_bits>`)
   `x.getbits <src> <sOff> <out> <len>`              → `ok <out'>`
   `x.setzeros <data> <off> <len>`                   → `ok <rc> <data'>`    (`x.setzeros_old`: as shipped before the fix)
   `x.pad <data> <off> <n>`                          → `ok <rc> <data'> <off'>`   (`x.pad_old` likewise)
-  `x.subspan <data> <off> <bitsAt> <sizeBits>`      → `ok <rc> <first byte> <bytes> <off'>`
+  `x.subspan <data> <off> <bitsAt> <sizeBits>`      → `ok <rc> <first byte|-> <bytes> <off'>`
   `x.setbit <data> <off> <0|1>`                     → `ok <rc> <data'>`
   `x.setu <data> <off> <value> <len>`, `x.seti …`   → `ok <rc> <data'>`
   `x.getbit <data> <off>`                           → `ok <0|1>`
@@ -138,7 +138,9 @@ def answerCpp (toks : List String) : Option String :=
   | ["x.subspan", d, off, bitsAt, sizeBits] => do
     let d ← parseHex d; let off ← off.toNat?; let bitsAt ← bitsAt.toNat?; let sizeBits ← sizeBits.toNat?
     let (rc, a, b, c) := Cpp.subspan ⟨d, off⟩ bitsAt sizeBits
-    some s!"ok {rc} {a} {b} {c}"
+    -- an empty window has no observable first byte
+    let first := if rc = 0 ∧ b = 0 then "-" else toString a
+    some s!"ok {rc} {first} {b} {c}"
   | [op, d, off, value, len] => do
     let d ← parseHex d; let off ← off.toNat?; let len ← len.toNat?
     if op = "x.setu" then
